@@ -41,10 +41,11 @@ package parser
 
 //@ struct Lexer
 //@ props C05
-//@ invariant 0 <= self.start && self.start <= self.pos && int(self.pos) <= len(self.input) && 0 <= self.width && self.width <= 4
+// the recorded quote characters are characters (never the end-of-input marker -1)
+//@ invariant 0 <= self.start && self.start <= self.pos && int(self.pos) <= len(self.input) && 0 <= self.width && self.width <= 4 && self.stringOpen >= 0 && self.backquoteOpen >= 0
 
 // the same, for loop invariants (a loop that moves the cursor re-establishes it every iteration)
-//@ spec wfLex(l *Lexer) bool = 0 <= l.start && l.start <= l.pos && int(l.pos) <= len(l.input) && 0 <= l.width && l.width <= 4
+//@ spec wfLex(l *Lexer) bool = 0 <= l.start && l.start <= l.pos && int(l.pos) <= len(l.input) && 0 <= l.width && l.width <= 4 && l.stringOpen >= 0 && l.backquoteOpen >= 0
 
 // assumed: UTF-8 decoding reads 1..4 bytes of a non-empty string, and a rune below 0x80 is
 // exactly one byte with that value
@@ -54,13 +55,17 @@ package parser
 //@ ensures len(s) > 0 && result0 < 128 ==> result1 == 1 && int(s[0]) == int(result0)
 //@ ensures len(s) > 0 && s[0] < 128 ==> result1 == 1 && int(result0) == int(s[0])
 //@ ensures len(s) == 0 ==> result1 == 0
+// assumed: the end-of-input marker -1 has no encoding
 //@ extern unicode/utf8.RuneLen
 //@ pure
+//@ ensures r < 0 ==> result == -1
 //@ extern strings.HasPrefix
 //@ pure
 //@ ensures result ==> len(prefix) <= len(s) && (forall i :: 0 <= i && i < len(prefix) ==> s[i] == prefix[i])
+// assumed: the end-of-input marker -1 is not a rune of any string
 //@ extern strings.ContainsRune
 //@ pure
+//@ ensures r < 0 ==> !result
 //@ extern strings.ToLower
 //@ pure
 //@ extern fmt.Sprintf
@@ -124,6 +129,7 @@ package parser
 //@ ensures l.pos >= old(l.pos)
 //@ loop 1
 //@ invariant wfLex(l) && l.pos >= old(l.pos)
+//@ decreases len(l.input) - int(l.pos)
 //@ func (*Lexer).scanNumber
 //@ props C05
 //@ modifies l.pos, l.width
@@ -135,6 +141,7 @@ package parser
 // a state function: never leaves a nil state behind without having produced an item; start
 // only moves forward; what it skipped without producing an item is blank; the item it
 // produced begins after blanks only and start is the item's end
+//@ spec lexRank(f stateFn) mathint = f == lexSpaceNotEOL ? 2 : (f == lexStatements ? 1 : 0)
 //@ functype stateFn
 //@ params l
 //@ requires l != nil && l.itemp != nil && !l.scannedItem
@@ -149,7 +156,10 @@ package parser
 //@ ensures result == lexSpaceNotEOL ==> blanks(l.input, l.start, l.pos)
 //@ ensures l.input == old(l.input) && l.itemp == old(l.itemp)
 //@ ensures result == nil ==> l.scannedItem
+// progress: a call that produced no item consumed input or moved to a lower-ranked state
+//@ ensures !l.scannedItem ==> 3 * (len(l.input) - int(l.pos)) + lexRank(result) < 3 * (len(l.input) - int(old(l.pos))) + lexRank(thisfunc)
 //@ ensures l.start >= old(l.start)
+//@ ensures l.scannedItem && l.itemp.Typ == COMMENT ==> l.start > old(l.start)
 //@ ensures !l.scannedItem ==> blanks(l.input, old(l.start), l.start)
 //@ ensures l.scannedItem && l.itemp.Typ != ERROR ==> l.itemp.Pos >= old(l.start) && blanks(l.input, old(l.start), l.itemp.Pos) && int(l.start) == int(l.itemp.Pos) + len(l.itemp.Val)
 
@@ -160,13 +170,19 @@ package parser
 //@ func lexKeywordOrIdentifier
 //@ props C05
 //@ implements parser.stateFn
+// assumed (read off the table literal in lex.go, never written after init): no keyword is a comment
+//@ entryassume forall k string :: dom(keywords, k) ==> keywords[k] != COMMENT
 //@ loop 1
+//@ invariant l.pos >= old(l.pos)
 //@ invariant wfLex(l) && l.start == old(l.start) && !l.scannedItem && l.itemp == old(l.itemp) && l.input == old(l.input)
+//@ decreases len(l.input) - int(l.pos)
 //@ func lexSpaceNotEOL
 //@ props C05
 //@ implements parser.stateFn
 //@ loop 1
+//@ invariant l.pos >= old(l.pos)
 //@ invariant wfLex(l) && l.start == old(l.start) && !l.scannedItem && l.itemp == old(l.itemp) && l.input == old(l.input) && blanks(l.input, l.start, l.pos)
+//@ decreases len(l.input) - int(l.pos)
 //@ func lexNumberOrDuration
 //@ props C05
 //@ implements parser.stateFn
@@ -174,35 +190,47 @@ package parser
 //@ props C05
 //@ implements parser.stateFn
 //@ loop 1
+//@ invariant l.pos >= old(l.pos)
 //@ invariant wfLex(l) && l.start == old(l.start) && !l.scannedItem && l.itemp == old(l.itemp) && l.input == old(l.input)
+//@ decreases len(l.input) - int(l.pos)
 //@ func lexLineComment
 //@ props C05
 //@ implements parser.stateFn
 //@ loop 1
-//@ invariant l.pos - l.width >= l.start
+//@ invariant l.pos - l.width >= l.start && l.pos - l.width > old(l.pos)
+//@ invariant l.pos >= old(l.pos)
 //@ invariant wfLex(l) && l.start == old(l.start) && !l.scannedItem && l.itemp == old(l.itemp) && l.input == old(l.input)
+//@ decreases (r == -1 || r == 10 || r == 13) ? 0 : 1 + len(l.input) - int(l.pos)
 //@ func lexEscape
 //@ props C05
 //@ implements parser.stateFn
 //@ loop 1
 //@ invariant l.pos - l.width >= l.start
+//@ invariant l.pos >= old(l.pos)
 //@ invariant wfLex(l) && l.start == old(l.start) && l.itemp == old(l.itemp) && l.input == old(l.input) && !l.scannedItem
+//@ decreases n
 // at most 8 digits of a base <= 16: the accumulated value stays below 2^32
+// progress: once a digit was consumed the cursor before the look-ahead is past the entry position
+//@ invariant (n == 3 && base == 8 && l.pos > old(l.pos)) || l.pos - l.width > old(l.pos)
 //@ invariant base <= 16 && n <= 8 && (n >= 8 ==> x < 1) && (n >= 7 ==> x < 16) && (n >= 6 ==> x < 256) && (n >= 5 ==> x < 4096) && (n >= 4 ==> x < 65536) && (n >= 3 ==> x < 1048576) && (n >= 2 ==> x < 16777216) && (n >= 1 ==> x < 268435456)
 //@ func lexMultilineString
 //@ props C05
 //@ implements parser.stateFn
 //@ loop 1
+//@ invariant l.pos >= old(l.pos)
 //@ invariant wfLex(l) && l.start == old(l.start) && l.itemp == old(l.itemp) && l.input == old(l.input)
 // an invalid rune inside the literal records an ERROR item and scanning goes on
 //@ invariant l.scannedItem ==> l.itemp.Typ == ERROR
+//@ decreases len(l.input) - int(l.pos)
 //@ func lexString
 //@ props C05
 //@ implements parser.stateFn
 //@ loop 1
+//@ invariant l.pos >= old(l.pos)
 //@ invariant wfLex(l) && l.start == old(l.start) && l.itemp == old(l.itemp) && l.input == old(l.input)
 // an invalid rune inside the literal records an ERROR item and scanning goes on
 //@ invariant l.scannedItem ==> l.itemp.Typ == ERROR
+//@ decreases len(l.input) - int(l.pos)
 
 // between two calls of NextItem the cursor is in the shape the pending state function expects
 //@ spec lexTypestate(l *Lexer) bool = (l.state == lexStatements ==> l.start == l.pos) && (l.state == lexLineComment ==> int(l.pos) < len(l.input) && l.input[int(l.pos)] == 35) && (l.state == lexSpaceNotEOL ==> blanks(l.input, l.start, l.pos))
@@ -210,17 +238,24 @@ package parser
 // NextItem: exactly one item per call, contiguous with what was consumed before
 //@ func (*Lexer).NextItem
 //@ props C05
+// the item slot is an out-parameter: whatever it held is overwritten
+//@ noinv itemp
 //@ requires itemp != nil && lexTypestate(l)
 //@ modifies lexFrame, l.itemp, l.lastPos, l.state
 //@ ensures lexTypestate(l)
 //@ ensures l.scannedItem && l.input == old(l.input)
 //@ ensures itemp.Typ != ERROR && old(l.state) != nil ==> itemp.Pos >= old(l.start) && blanks(l.input, old(l.start), itemp.Pos) && int(l.start) == int(itemp.Pos) + len(itemp.Val)
 //@ ensures old(l.state) == nil ==> itemp.Typ == EOF
+// a comment is never empty: skipping comments terminates
+//@ ensures itemp.Typ == COMMENT ==> l.start > old(l.start)
 //@ loop 1
 //@ invariant wfLex(l) && l.itemp == itemp && l.input == old(l.input) && l.start >= old(l.start)
 //@ invariant lexTypestate(l)
 //@ invariant !l.scannedItem ==> l.state != nil && blanks(l.input, old(l.start), l.start)
 //@ invariant l.scannedItem && itemp.Typ != ERROR ==> itemp.Pos >= old(l.start) && blanks(l.input, old(l.start), itemp.Pos) && int(l.start) == int(itemp.Pos) + len(itemp.Val)
+//@ invariant l.scannedItem && itemp.Typ == COMMENT ==> l.start > old(l.start)
+// termination of the scan for one item
+//@ decreases l.scannedItem ? 0 : 1 + 3 * (len(l.input) - int(l.pos)) + lexRank(l.state)
 
 //@ func Lex
 //@ props C05
@@ -254,7 +289,10 @@ package parser
 //@ ensures 97 <= ch && ch <= 102 ==> result == int(ch) - 97 + 10
 //@ ensures 65 <= ch && ch <= 70 ==> result == int(ch) - 65 + 10
 //@ ensures !(48 <= ch && ch <= 57) && !(97 <= ch && ch <= 102) && !(65 <= ch && ch <= 70) ==> result == 16
-//@ sweep[C05] isUTF8
+//@ func isUTF8
+//@ props C05
+//@ pure
+//@ ensures r < 0 ==> !result
 
 // ---- C05: the node constructors called by the grammar actions -----------------------------------
 // They are total on every operand the grammar can hand them - including a nil operand left by
@@ -265,6 +303,12 @@ package parser
 // the operator table lookup behind AstOp reads a package-level map and writes nothing
 //@ functype func(op parser.ItemType) ast.Op
 //@ pure
+
+// an item starts inside the source text (the lexer writes start <= len(input); the generated
+// driver copies items as they are)
+//@ struct Item
+//@ props C05
+//@ invariant 0 <= self.Pos && int(self.Pos) <= 140737488355328
 
 //@ func (*Item).PositionRange
 //@ props C05
@@ -305,7 +349,20 @@ package parser
 //@ modifies p.errs, elems(p.errs)
 //@ ensures len(p.errs) == old(len(p.errs)) + 1
 
-//@ sweep[C05] (*parser).new* (*parser).unquoteString (*parser).unquoteMultilineString (*parser).unexpected conv2PlError
+//@ sweep[C05] (*parser).new* (*parser).unquoteString (*parser).unquoteMultilineString (*parser).unexpected
+
+// every recorded parse error carries a position and a cause: the diagnostic ParsePipeline hands
+// back is built from the first of them
+//@ struct parser
+//@ props C05
+//@ invariant forall i :: 0 <= i && i < len(self.errs) ==> self.errs[i].Pos != nil && self.errs[i].Err != nil
+
+// the positioned diagnostic: line and column of the start of the first recorded error
+//@ func conv2PlError
+//@ props C05
+//@ requires posCache != nil && (forall i :: 0 <= i && i < len(errs) ==> errs[i].Pos != nil && errs[i].Err != nil)
+//@ ensures len(errs) == 0 ==> result == nil
+//@ ensures len(errs) > 0 ==> result != nil && ncalls((*PosCache).LnCol) == 1 && callarg((*PosCache).LnCol, 0, 0) == posCache && callarg((*PosCache).LnCol, 0, 1) == errs[0].Pos.Start
 
 // the token source of the generated driver: comments are dropped, a lexer error is recorded
 // with a position range inside the source and ends the token stream, EOF ends it too
@@ -320,12 +377,13 @@ package parser
 //@ ensures !old(p.injecting) && lval.item.Typ != ERROR ==> result == int(lval.item.Typ)
 //@ loop 1
 //@ invariant wfLex(p.lex) && lexTypestate(p.lex) && !p.injecting && len(p.errs) == old(len(p.errs))
+//@ decreases len(p.lex.input) - int(p.lex.start)
 
 //@ func (*parser).addParseErr
 //@ props C05
-//@ requires pr != nil
+//@ requires pr != nil && err != nil
 //@ modifies p.errs, elems(p.errs)
-//@ ensures len(p.errs) == old(len(p.errs)) + 1
+//@ ensures len(p.errs) == old(len(p.errs)) + 1 && p.errs[len(p.errs)-1].Pos == pr && p.errs[len(p.errs)-1].Err == err
 
 // ---- C07: literals ----------------------------------------------------------------------------
 
